@@ -410,7 +410,44 @@ def case_compress_ids(inp):
         yield 'other-spike-tables-untouched', np.array_equal(np.load(os.path.join(d, 'spikes.amps' + suffix)), np.arange(len(ids)) * 0.5), ''
 
 
-CASES = {'convert': case_convert, 'refuse_same_dir': case_refuse_same_dir, 'rename_with_label': case_rename_with_label,
+def case_reload_ids(inp):
+    """Loading an exported directory (ALF names, optional label, compressed id dtype) yields the ids that were written,
+    for any id below 65536.  The directory is written here the way the exporter lays it out (end-to-end conversions
+    with ids that large are out of reach: the exporter is quadratic in the highest cluster id)."""
+    ids, dtype, label = inp['ids'], inp['dtype'], inp.get('label', '')
+    n = len(ids)
+    with tempdir() as d:
+        def save(attr, a):
+            np.save(os.path.join(d, '%s%s.npy' % (attr, ('.' + label) if label else '')), a)
+        samples = np.arange(n).astype(np.uint64) * 7 + 3
+        sc = np.asarray(ids, dtype=dtype)
+        stt = np.asarray(ids[::-1], dtype=dtype)
+        save('spikes.times', samples / 100.0)
+        save('spikes.samples', samples)
+        save('spikes.clusters', sc)
+        save('spikes.templates', stt)
+        save('spikes.amps', np.ones(n, dtype=np.float32))
+        save('channels.rawInd', np.array([1, 0]))
+        save('channels.localCoordinates', np.array([[0.0, 0.0], [7.0, 10.0]]))
+        save('templates.waveforms', np.arange(16, dtype=np.float32).reshape((2, 4, 2)) + 1)
+        save('templates.waveformsChannels', np.array([[0, 1], [1, 0]], dtype=np.int32))
+        with open(os.path.join(d, 'params.py'), 'w') as f:
+            f.write("dat_path = []\nn_channels_dat = 2\ndtype = 'int16'\noffset = 0\nsample_rate = 100.0\nhp_filtered = False\n")
+        with warnings.catch_warnings():
+            warnings.simplefilter('ignore')
+            m = MODEL.load_model(Path(d) / 'params.py')
+        try:
+            yield 'reload-same-spike-clusters', np.array_equal(np.asarray(m.spike_clusters).astype(np.int64), np.asarray(ids, dtype=np.int64)), np.asarray(m.spike_clusters).tolist()
+            yield 'reload-same-spike-templates', np.array_equal(np.asarray(m.spike_templates).astype(np.int64), np.asarray(ids[::-1], dtype=np.int64)), np.asarray(m.spike_templates).tolist()
+            yield 'reload-same-spike-times', np.array_equal(np.asarray(m.spike_times), samples / 100.0), ''
+            yield 'reload-same-spike-samples', np.array_equal(np.asarray(m.spike_samples).astype(np.int64), samples.astype(np.int64)), ''
+            yield 'reload-same-channel-map', np.array_equal(np.asarray(m.channel_mapping), [1, 0]), np.asarray(m.channel_mapping).tolist()
+            yield 'reload-same-channel-positions', np.array_equal(np.asarray(m.channel_positions), [[0.0, 0.0], [7.0, 10.0]]), ''
+        finally:
+            close_model(m)
+
+
+CASES = {'reload_ids': case_reload_ids, 'convert': case_convert, 'refuse_same_dir': case_refuse_same_dir, 'rename_with_label': case_rename_with_label,
          'compress_ids': case_compress_ids}
 
 
@@ -557,6 +594,14 @@ def enumerate_cases(ctx):
                 if quick and (a + b) % 3:
                     continue
                 ctx.run('compress_ids', {'ids': [a, b, a], 'dtype': dt, 'label': lb})
+    ctx.scope('reload of an exporter-layout directory: the same id vectors in the exported dtype uint16 (and uint32/int32/int64) x labels')
+    for dt in ('uint16', 'uint32', 'int32', 'int64'):
+        for lb in ('', 'probe00'):
+            ctx.run('reload_ids', {'ids': pool, 'dtype': dt, 'label': lb})
+            for a, b in itertools.combinations(pool, 2):
+                if (quick or dt != 'uint16') and (a + b) % 3:
+                    continue
+                ctx.run('reload_ids', {'ids': [a, b, a], 'dtype': dt, 'label': lb})
     # ---- same-directory guard
     hows = ['str', 'path', 'trailing', 'dot', 'dotdot', 'subdir_dotdot', 'symlink', 'relative']
     ctx.scope('same-directory guard: 8 spellings of the source directory x {no raw, raw} x labels {"", "x"} x force {False, True}')
